@@ -24,6 +24,7 @@ ASSUMPTIONS = [
     "elements are mutually orderable (the heap compares combinations on key ties) - documented precondition",
     "keys never decrease when an element is appended (the function's stated assumption); all keys used satisfy it",
     "order among combinations with equal key is not judged",
+    "for sorted_combinations the elements are orderable (its heap compares combinations on key ties); for the interval search the elements are an arbitrary payload (dicts, plain objects)",
 ]
 SHARD_TIMEOUT = {"quick": 900, "thorough": 3600}
 NSHARDS = 16
@@ -117,7 +118,18 @@ def check_sorted_raw(vec, keyname):
 def check_interval(vec, a, b):
     from windpyutils.generic import min_combinations_in_interval_iter_sorted as f
     elems = [f"e{i}" for i in range(len(vec))]
-    got = outcome(lambda: f(elems, vec, a, b))
+    if (a + b + len(vec)) % 3 == 0:
+        # elements are only a payload: they need be neither orderable nor hashable
+        class _E:
+            __slots__ = ("name",)
+
+            def __init__(self, name):
+                self.name = name
+        objs = [_E(n) if k % 2 else {"name": n} for k, n in enumerate(elems)]
+        name_of = lambda o: o.name if isinstance(o, _E) else o["name"]
+        got = outcome(lambda: [([name_of(o) for o in c], sc) for c, sc in f(objs, vec, a, b)])
+    else:
+        got = outcome(lambda: f(elems, vec, a, b))
     sums = {}
     for r in range(1, len(vec) + 1):
         for idx in itertools.combinations(range(len(vec)), r):
@@ -195,6 +207,18 @@ def run_shard(spec):
                             bad = ("operation-does-not-end", f"interval search on {vec} exceeded the statement budget")
                     if bad:
                         report(bad, {"what": "interval", "vec": vec, "a": a, "b": b})
+        if len(vec) and len(vec) <= 4 and i % 7 == 0:
+            # the same vector shifted far beyond 2**53: sums must stay exact integers
+            big = [2 ** 53 + 10 ** 17 * 0 + x for x in vec]
+            tot = sum(big)
+            cands = sorted({sum(c) for r in range(1, len(big) + 1) for c in itertools.combinations(big, r)})
+            for a0 in cands[:6]:
+                for (a, b) in ((a0, a0 + 1), (a0 - 1, a0 + 2), (a0 + 1, tot + 1), (0, a0)):
+                    res.evaluations += 1
+                    res.count("interval_searches_huge_scores")
+                    bad = check_interval(big, a, b)
+                    if bad:
+                        report(bad, {"what": "interval", "vec": big, "a": a, "b": b})
         if i % 301 == 0:
             res.sample({"scores": vec, "keys": list(KEYS), "intervals": f"all [a,b) with 0<=a,b<={sum(vec) + 2}"})
     res.count("repo_line_events", instr.S.total)
